@@ -1986,3 +1986,422 @@ Proof.
   rewrite reqs_from_length in G. unfold range in G. cbn [f_range repaired] in G.
   apply G; try assumption. unfold two64, n64 in *. lia.
 Qed.
+
+(* ================================================================== *)
+(* 9. pool reservations after a bulk sync of a fresh standby            *)
+(* ================================================================== *)
+From Coq Require Import Permutation.
+
+Definition same_elems {A} (l1 l2 : list A) : Prop := forall x, In x l1 <-> In x l2.
+
+Lemma nodup_pairs {K V} (l : list (K * V)) : NoDup (map fst l) -> NoDup l.
+Proof.
+  induction l as [|[k v] r IH]; simpl; intros H; [constructor|]. inversion H as [|? ? Hn Hd]; subst.
+  constructor; [|auto]. intros Hin. apply Hn. apply in_map_iff. exists (k, v). auto.
+Qed.
+
+Lemma uniq_same g0 l1 l2 : NoDup (map fst l1) -> NoDup (map fst l2) -> same_elems l1 l2 -> uniq g0 l1 -> uniq g0 l2.
+Proof.
+  intros H1 H2 Hs Hu. unfold uniq, expected_leases in *.
+  assert (P : Permutation l1 l2) by (apply NoDup_Permutation; [apply nodup_pairs, H1|apply nodup_pairs, H2|exact Hs]).
+  eapply Permutation_NoDup; [|exact Hu]. apply Permutation_map. apply Permutation_flat_map. exact P.
+Qed.
+
+Lemma uniq_prefix g0 (p r : list ((N * N) * session)) : uniq g0 (p ++ r) -> uniq g0 p.
+Proof.
+  unfold uniq, expected_leases. rewrite flat_map_app, map_app. intros H.
+  revert H. generalize (map fst (flat_map (fun ks => resv_cp g0 (s2c (snd ks))) p)) as a.
+  generalize (map fst (flat_map (fun ks => resv_cp g0 (s2c (snd ks))) r)) as b.
+  intros b a. induction a as [|x a IH]; simpl; intros H; [constructor|]. inversion H as [|? ? Hn Hd]; subst.
+  constructor; [intros Hin; apply Hn, in_or_app; auto|auto].
+Qed.
+
+Lemma aset_absent {V} k (v : V) l : aget keyeqb k l = None -> aset keyeqb k v l = l ++ [(k, v)].
+Proof.
+  induction l as [|[k0 v0] r IH]; simpl; [reflexivity|]. destruct (keyeqb k k0); [discriminate|].
+  intros H. rewrite IH by exact H. reflexivity.
+Qed.
+
+Lemma aget_absent_keys {V} k (l : list ((N * N) * V)) : ~ In k (map fst l) -> aget keyeqb k l = None.
+Proof.
+  induction l as [|[k0 v0] r IH]; simpl; intros H; [reflexivity|].
+  destruct (keyeqb k k0) eqn:E; [apply keyeqb_eq in E; subst; exfalso; apply H; auto|apply IH; auto].
+Qed.
+
+Lemma recv_update_eta fl rc c : recv_update fl rc c = recv_update fl (mkrecv (rc_last rc) (rc_store rc) (rc_reg rc)) c.
+Proof. destruct rc; reflexivity. Qed.
+
+(* storing the checkpoints of a list of sessions with distinct keys, one after the other *)
+Lemma pinv_bulk_updates g0 fl : f_drop fl = false -> f_relall fl = false ->
+  forall r p rc, live_ok (p ++ r) -> uniq g0 (p ++ r) -> pinv g0 rc p ->
+  pinv g0 (fold_left (recv_update fl) (map (fun ks => s2c (snd ks)) r) rc) (p ++ r).
+Proof.
+  intros Hd Hr. induction r as [|[k s] r IH]; intros p rc Hok Hu Hp; [rewrite app_nil_r; exact Hp|].
+  cbn [map fold_left snd].
+  replace (p ++ (k, s) :: r) with ((p ++ [(k, s)]) ++ r) in * by (rewrite <- app_assoc; reflexivity).
+  apply IH; [exact Hok|exact Hu|].
+  destruct Hok as [Hn Hc].
+  assert (Hk : k = sess_key s) by (apply Hc, in_or_app; left; apply in_or_app; right; left; reflexivity).
+  assert (Habs : aget keyeqb k p = None).
+  { apply aget_absent_keys. rewrite !map_app in Hn. simpl in Hn. rewrite <- app_assoc in Hn.
+    intros Hin. apply NoDup_remove_2 in Hn. apply Hn. apply in_or_app. left. exact Hin. }
+  rewrite <- (aset_absent k s p Habs). subst k.
+  rewrite recv_update_head by assumption. rewrite recv_update_eta.
+  apply (pinv_update g0 rc p s); [exact Hp| |].
+  - apply (uniq_prefix g0 p ([(sess_key s, s)] ++ r)). rewrite app_assoc. exact Hu.
+  - rewrite (aset_absent _ s p Habs). apply (uniq_prefix g0 _ r). exact Hu.
+Qed.
+
+Lemma pinv_last g0 rc live l : pinv g0 rc live -> pinv g0 (mkrecv l (rc_store rc) (rc_reg rc)) live.
+Proof. intros H. exact H. Qed.
+
+(* the invariant only depends on the live set as a set *)
+Lemma pinv_owner_same g0 l1 l2 x sid : same_elems l1 l2 -> owner g0 l1 x sid <-> owner g0 l2 x sid.
+Proof. intros Hs. unfold owner. split; intros (e & A & B); exists e; split; auto; apply Hs; auto. Qed.
+
+Lemma same_elems_step l1 l2 s rel : NoDup (map fst l1) -> NoDup (map fst l2) -> same_elems l1 l2 ->
+  same_elems (live_step l1 s rel) (live_step l2 s rel).
+Proof.
+  intros H1 H2 Hs [k v]. unfold live_step. destruct rel.
+  - rewrite !(in_adel keyeqb keyeqb_eq). split; intros [A B]; split; auto; apply Hs; auto.
+  - rewrite (in_aset keyeqb keyeqb_eq _ _ _ _ _ H1), (in_aset keyeqb keyeqb_eq _ _ _ _ _ H2).
+    split; (intros [A|[A B]]; [left; exact A|right; split; [exact A|apply Hs; exact B]]).
+Qed.
+
+Lemma live_step_nodup l s rel : NoDup (map fst l) -> NoDup (map fst (live_step l s rel)).
+Proof.
+  intros H. unfold live_step. destruct rel; [apply (nodup_adel keyeqb keyeqb_eq), H|apply (nodup_aset keyeqb keyeqb_eq), H].
+Qed.
+
+Lemma same_elems_fold evs : forall l1 l2, NoDup (map fst l1) -> NoDup (map fst l2) -> same_elems l1 l2 ->
+  same_elems (live_fold l1 evs) (live_fold l2 evs) /\ NoDup (map fst (live_fold l1 evs)) /\ NoDup (map fst (live_fold l2 evs)).
+Proof.
+  induction evs as [|[s rel] t IH]; intros l1 l2 H1 H2 Hs; [auto|].
+  rewrite !live_fold_cons. cbn [fst snd].
+  apply IH; [apply live_step_nodup, H1|apply live_step_nodup, H2|apply same_elems_step; assumption].
+Qed.
+
+(* the in-order stream on top of a state that satisfies the invariant for a permutation of the live set *)
+Lemma pinv_stream_perm g0 g fl evs2 : f_stale fl = true -> f_drop fl = false -> f_relall fl = false ->
+  forall seq rc l live, NoDup (map fst l) -> NoDup (map fst live) -> same_elems l live ->
+  pinv g0 rc l ->
+  (forall i, (i <= length evs2)%nat -> uniq g0 (live_fold live (firstn i evs2))) ->
+  pinv g0 (recv_run fl rc (reqs_from g seq evs2)) (live_fold l evs2).
+Proof.
+  intros Hs Hd Hr. induction evs2 as [|[s rel] t IH]; intros seq rc l live Hl Hlive Hsame Hp Hu; [exact Hp|].
+  cbn [reqs_from]. rewrite recv_run_cons, live_fold_cons. cbn [fst snd].
+  pose proof (Hu 0%nat ltac:(simpl; lia)) as U0. simpl in U0.
+  pose proof (Hu 1%nat ltac:(simpl; lia)) as U1. cbn [firstn] in U1. rewrite live_fold_one in U1.
+  assert (Hsame' : same_elems (live_step l s rel) (live_step live s rel)) by (apply same_elems_step; assumption).
+  assert (Ul0 : uniq g0 l).
+  { apply (uniq_same g0 live l Hlive Hl); [intros x; symmetry; apply Hsame|exact U0]. }
+  assert (Ul1 : uniq g0 (live_step l s rel)).
+  { apply (uniq_same g0 (live_step live s rel) (live_step l s rel)); [apply live_step_nodup, Hlive|apply live_step_nodup, Hl| |exact U1].
+    intros x; symmetry; apply Hsame'. }
+  apply (IH (seq + 1)%N _ _ (live_step live s rel)); [apply live_step_nodup, Hl|apply live_step_nodup, Hlive|exact Hsame'| |].
+  - rewrite (recv_step_head fl rc _ Hs Hd Hr). cbv zeta. cbn [q_act q_cp q_srg q_seq].
+    unfold live_step in *. destruct rel; cbn [act_of].
+    + apply (pinv_delete g0 rc l s); [exact Hp|exact Ul0].
+    + apply (pinv_update g0 rc l s); [exact Hp|exact Ul0|exact Ul1].
+  - intros i Hi. specialize (Hu (S i) ltac:(simpl; lia)). simpl in Hu. exact Hu.
+Qed.
+
+(* ---------- last writer per session, at the level of events ---------- *)
+Fixpoint last_ev (k : N * N) (evs : list (session * bool)) : option (option session) :=
+  match evs with
+  | [] => None
+  | (s, rel) :: r => match last_ev k r with
+                     | Some x => Some x
+                     | None => if keyeqb k (sess_key s) then Some (if rel then None else Some s) else None
+                     end
+  end.
+
+Lemma aget_live_fold_last k evs : forall live,
+  aget keyeqb k (live_fold live evs) = match last_ev k evs with Some r => r | None => aget keyeqb k live end.
+Proof.
+  induction evs as [|[s rel] t IH]; intros live; [reflexivity|]. rewrite live_fold_cons, IH. cbn [last_ev fst snd].
+  destruct (last_ev k t); [reflexivity|]. rewrite aget_live_step. destruct (keyeqb k (sess_key s)); reflexivity.
+Qed.
+
+Lemma last_ev_app k a b : last_ev k (a ++ b) = match last_ev k b with Some x => Some x | None => last_ev k a end.
+Proof.
+  induction a as [|[s rel] r IH]; simpl; [destruct (last_ev k b); reflexivity|]. rewrite IH. destruct (last_ev k b); reflexivity.
+Qed.
+
+Definition later_ev (k : N * N) (r : list (session * bool)) : bool := existsb (fun e => keyeqb k (sess_key (fst e))) r.
+Fixpoint compact_ev (evs : list (session * bool)) : list ((N * N) * session) :=
+  match evs with
+  | [] => []
+  | (s, rel) :: r => if later_ev (sess_key s) r then compact_ev r
+                     else if rel then compact_ev r else (sess_key s, s) :: compact_ev r
+  end.
+
+Lemma last_ev_none k l : last_ev k l = None <-> forall e, In e l -> sess_key (fst e) <> k.
+Proof.
+  induction l as [|[s rel] r IH]; simpl; [tauto|].
+  destruct (last_ev k r) eqn:E.
+  - split; [discriminate|]. intros H. exfalso.
+    assert (G : Some o = None) by (apply IH; intros e' He'; apply H; auto). discriminate.
+  - destruct (keyeqb k (sess_key s)) eqn:Ek.
+    + split; [discriminate|]. intros H. apply keyeqb_eq in Ek. exfalso. apply (H (s, rel)); auto.
+    + split; [|reflexivity]. intros _ e' [<-|He'].
+      * simpl. intros Heq. rewrite Heq, (proj2 (keyeqb_eq k k) eq_refl) in Ek. discriminate.
+      * apply (proj1 IH eq_refl e' He').
+Qed.
+
+Lemma later_ev_spec k l : later_ev k l = true <-> last_ev k l <> None.
+Proof.
+  unfold later_ev. rewrite existsb_exists. split.
+  - intros (e & He & E) H. apply keyeqb_eq in E. apply (proj1 (last_ev_none k l) H e He). auto.
+  - intros H. destruct (existsb (fun e => keyeqb k (sess_key (fst e))) l) eqn:Ex.
+    + apply existsb_exists in Ex. exact Ex.
+    + exfalso. apply H. apply last_ev_none. intros e He Heq.
+      assert (existsb (fun e => keyeqb k (sess_key (fst e))) l = true).
+      { apply existsb_exists. exists e. split; [exact He|]. apply keyeqb_eq. auto. }
+      congruence.
+Qed.
+
+Lemma aget_compact_ev k evs :
+  aget keyeqb k (compact_ev evs) = match last_ev k evs with Some (Some s) => Some s | _ => None end.
+Proof.
+  induction evs as [|[s rel] r IH]; [reflexivity|]. cbn [compact_ev last_ev].
+  destruct (later_ev (sess_key s) r) eqn:Hl.
+  - rewrite IH. destruct (last_ev k r) as [x|] eqn:E; [reflexivity|].
+    destruct (keyeqb k (sess_key s)) eqn:Ek; [|reflexivity].
+    apply keyeqb_eq in Ek. subst k. apply later_ev_spec in Hl. contradiction.
+  - assert (Hn : last_ev (sess_key s) r = None).
+    { destruct (last_ev (sess_key s) r) eqn:E; [|reflexivity].
+      assert (later_ev (sess_key s) r = true) by (apply later_ev_spec; congruence). congruence. }
+    destruct rel.
+    + rewrite IH. destruct (last_ev k r) as [x|] eqn:E; [reflexivity|].
+      destruct (keyeqb k (sess_key s)); reflexivity.
+    + simpl aget. rewrite IH. destruct (keyeqb k (sess_key s)) eqn:Ek.
+      * apply keyeqb_eq in Ek. subst k. rewrite Hn. reflexivity.
+      * destruct (last_ev k r) as [[x|]|]; reflexivity.
+Qed.
+
+Lemma compact_ev_keys evs k s : In (k, s) (compact_ev evs) -> k = sess_key s /\ exists rel, In (s, rel) evs.
+Proof.
+  induction evs as [|[s0 rel] r IH]; simpl; [tauto|].
+  destruct (later_ev (sess_key s0) r); [intros H; destruct (IH H) as (A & rl & B); split; [exact A|exists rl; auto]|].
+  destruct rel; [intros H; destruct (IH H) as (A & rl & B); split; [exact A|exists rl; auto]|].
+  intros [H|H]; [inversion H; subst; split; [reflexivity|exists false; auto]|destruct (IH H) as (A & rl & B); split; [exact A|exists rl; auto]].
+Qed.
+
+Lemma compact_ev_ok evs : live_ok (compact_ev evs).
+Proof.
+  split; [|intros k s H; apply (compact_ev_keys evs k s H)].
+  induction evs as [|[s rel] r IH]; simpl; [constructor|].
+  destruct (later_ev (sess_key s) r) eqn:Hl; [exact IH|]. destruct rel; [exact IH|].
+  simpl. constructor; [|exact IH]. intros Hin. apply in_map_iff in Hin. destruct Hin as ([k' s'] & Ek & Hin). simpl in Ek. subst k'.
+  destruct (compact_ev_keys r _ _ Hin) as (A & rl & B).
+  assert (later_ev (sess_key s) r = true).
+  { unfold later_ev. apply existsb_exists. exists (s', rl). split; [exact B|]. apply keyeqb_eq. exact A. }
+  congruence.
+Qed.
+
+Lemma has_later_reqs g k evs : forall seq, has_later k (reqs_from g seq evs) = later_ev k evs.
+Proof.
+  induction evs as [|[s rel] r IH]; intros seq; [reflexivity|]. unfold has_later, later_ev in *. cbn [reqs_from existsb q_cp fst].
+  rewrite cp_key_s2c. f_equal. apply IH.
+Qed.
+
+Lemma compact_reqs g evs : forall seq, compact (reqs_from g seq evs) = map (fun ks => s2c (snd ks)) (compact_ev evs).
+Proof.
+  induction evs as [|[s rel] r IH]; intros seq; [reflexivity|]. cbn [reqs_from compact compact_ev q_cp q_act].
+  rewrite cp_key_s2c, has_later_reqs. destruct (later_ev (sess_key s) r); [apply IH|].
+  destruct rel; cbn [act_of]; [apply IH|]. cbn [map snd]. f_equal. apply IH.
+Qed.
+
+Lemma reqs_from_skipn g evs : forall m seq, (m <= length evs)%nat ->
+  skipn m (reqs_from g seq evs) = reqs_from g (seq + N.of_nat m) (skipn m evs).
+Proof.
+  induction evs as [|[s rel] r IH]; intros m seq H.
+  - destruct m; simpl in *; [reflexivity|lia].
+  - destruct m as [|m]; [replace (seq + N.of_nat 0)%N with seq by lia; reflexivity|].
+    simpl in H. cbn [reqs_from skipn]. rewrite IH by lia. f_equal. lia.
+Qed.
+
+Lemma pinv_recv_bulk g0 fl rc srg w L :
+  pinv g0 (fold_left (recv_update fl) (bulk_cps fl w) rc) L -> pinv g0 (recv_bulk fl rc srg w) L.
+Proof. unfold recv_bulk. intros H. destruct (rev w) as [|q ?]; [exact H|]. destruct (N.ltb 0 (q_seq q)); exact H. Qed.
+Lemma pinv_recv_snapshot g0 fl rc srg seq cps L :
+  pinv g0 (fold_left (recv_update fl) cps (if f_lagdel fl then rc else purge fl rc srg)) L ->
+  pinv g0 (recv_snapshot fl rc srg seq cps) L.
+Proof. unfold recv_snapshot. intros H. destruct (N.ltb 0 seq); exact H. Qed.
+
+Lemma pinv_fresh g0 : fresh g0 -> pinv g0 (mkrecv [] [] g0) [].
+Proof.
+  intros Hf. split; [reflexivity|]. split; [constructor|]. split; [reflexivity|].
+  intros x sid. simpl. rewrite Hf. split; [discriminate|]. intros (e & [] & _).
+Qed.
+
+(* the same bulk step, with the pool invariant for a permutation of the live set *)
+Lemma bulk_fresh_pinv fl g0 cap g evs1 :
+  f_range fl = false -> f_stale fl = true -> f_bulk fl = false ->
+  g <> 0%N -> (forall e, In e evs1 -> s_srg (fst e) = g) ->
+  (0 < cap <= max_make)%Z -> (Z.of_nat (length evs1) < two63 - 1)%Z -> evs1 <> [] ->
+  (f_window fl = true -> window_covers cap evs1 g) ->
+  f_drop fl = false -> f_relall fl = false -> fresh g0 -> uniq g0 (live_run evs1) ->
+  let reqs1 := reqs_from g 0 evs1 in
+  let y1 := mksys [(g, (N.of_nat (length evs1), fold_left push reqs1 (new_ring cap)))] (mkrecv [] [] g0) reqs1 []
+                  (live_run evs1) O in
+  exists rcb L, sys_step fl y1 (OBulk g) = mksys (y_sender y1) rcb reqs1 [(g, length evs1)] (live_run evs1) O /\
+                NoDup (map fst L) /\ same_elems L (live_run evs1) /\ pinv g0 rcb L.
+Proof.
+  intros Hfr Hfs Hfb Hg Hall Hcap Hn Hne Hcov Hfd Hfrl Hfresh Huniq reqs1 y1.
+  set (c := Z.to_nat cap). set (n1 := length evs1).
+  set (w := skipn (n1 - c) reqs1).
+  assert (Hn1 : (0 < n1)%nat) by (unfold n1; destruct evs1; [contradiction|simpl; lia]).
+  assert (Hlen1 : length reqs1 = n1) by (apply reqs_from_length).
+  assert (Hinv : ring_inv c (fold_left push reqs1 (new_ring cap)) w).
+  { unfold w. rewrite <- Hlen1. apply pushed_ring_inv. lia. }
+  assert (Hcs : consec (1 + Z.of_nat (n1 - c)) w).
+  { unfold w. pose proof (consec_skipn 1 reqs1 (n1 - c) (reqs_from_consec g 0 evs1)) as G. exact G. }
+  assert (Hwl : length w = (n1 - (n1 - c))%nat) by (unfold w; rewrite skipn_length; lia).
+  assert (Hwne : w <> []) by (intros E; rewrite E in Hwl; simpl in Hwl; unfold c in *; lia).
+  unfold two63 in *.
+  destruct (full_window c _ w (1 + Z.of_nat (n1 - c)) Hinv ltac:(unfold c; lia) Hcs ltac:(lia)
+              ltac:(unfold two63; lia) Hwne) as (o & n & Ho & Hnw & Hoz & Hnz & Hrange).
+  assert (Hnn : n = N.of_nat n1) by (unfold c in *; lia).
+  (* the lookups of both paths *)
+  assert (Hexp : forall k, aget keyeqb k (expected_store (live_run evs1)) =
+                           match last_write k reqs1 with Some r => r | None => None end).
+  { intros k. apply (expected_by_last_write fl g evs1 k Hfs). }
+  assert (Hsplit : reqs1 = firstn (n1 - c) reqs1 ++ w) by (unfold w; symmetry; apply firstn_skipn).
+  assert (Hok1 : live_ok (live_run evs1)) by (apply (live_ok_fold evs1 []); split; [constructor|intros ? ? []]).
+  unfold sys_step, bulk_op. cbn [y_sender y1 aget]. rewrite N.eqb_refl, Ho, Hnw.
+  destruct (N.eqb_spec o 0) as [E0|_]; [lia|]. destruct (N.eqb_spec n 0) as [E0|_]; [lia|]. cbn [orb].
+  unfold range. rewrite Hfr, Hrange, somes_map_some.
+  unfold last_of. cbn [y_recv y1 rc_last aget]. rewrite N.add_0_l.
+  destruct (f_window fl || (N.leb o 1 && (f_lagdel fl || N.eqb 0 0 || N.leb n 0))) eqn:Hpath.
+  - (* window *)
+    rewrite Nat.mul_0_r. cbn [iter_n y_sender y_recv y_sent y_next y_live y_panics y1].
+    set (W := skipn (n1 - c) evs1).
+    assert (Hw : w = reqs_from g (N.of_nat (n1 - c)) W).
+    { unfold w, reqs1, W. rewrite reqs_from_skipn by (fold n1; lia). rewrite N.add_0_l. reflexivity. }
+    assert (Hwhy : f_window fl = true \/ (n1 <= c)%nat).
+    { destruct (f_window fl); [left; reflexivity|right]. cbn [orb] in Hpath.
+      destruct (N.leb_spec o 1); [unfold c in *; lia|discriminate]. }
+    assert (Hsame : same_elems (compact_ev W) (live_run evs1)).
+    { assert (Hlk : forall k, aget keyeqb k (compact_ev W) = aget keyeqb k (live_run evs1)).
+      { intros k. rewrite aget_compact_ev. unfold live_run. change (fold_left _ evs1 []) with (live_fold [] evs1).
+        rewrite aget_live_fold_last. simpl aget.
+        replace (last_ev k evs1) with (last_ev k (firstn (n1 - c) evs1 ++ W)) by (unfold W; rewrite firstn_skipn; reflexivity).
+        rewrite last_ev_app.
+        destruct (last_ev k W) as [[x|]|] eqn:Ew; [reflexivity|reflexivity|].
+        destruct Hwhy as [Hwn|Hwn].
+        - destruct (match last_ev k (firstn (n1 - c) evs1) with Some r => r | None => None end) as [sx|] eqn:Ep;
+            [|destruct (last_ev k (firstn (n1 - c) evs1)) as [[?|]|]; [discriminate|reflexivity|reflexivity]].
+          exfalso.
+          assert (Hlive : aget keyeqb k (live_run evs1) = Some sx).
+          { unfold live_run. change (fold_left _ evs1 []) with (live_fold [] evs1). rewrite aget_live_fold_last. simpl aget.
+            replace (last_ev k evs1) with (last_ev k (firstn (n1 - c) evs1 ++ W)) by (unfold W; rewrite firstn_skipn; reflexivity).
+            rewrite last_ev_app, Ew. exact Ep. }
+          destruct (Hcov Hwn k (s2c sx)) as (q & Hq & Hk).
+          + unfold expected_store. rewrite aget_map, Hlive. reflexivity.
+          + fold n1 c reqs1 in Hq. fold w in Hq. rewrite Hw in Hq.
+            apply in_nth_error in Hq. destruct Hq as (j & _ & Hj).
+            destruct (reqs_from_nth _ _ _ _ _ Hj) as (_ & _ & s' & rel' & He' & _ & Hc').
+            apply nth_error_In in He'. apply (proj1 (last_ev_none k W) Ew _ He'). simpl.
+            rewrite <- Hk, Hc', cp_key_s2c. reflexivity.
+        - replace (n1 - c)%nat with 0%nat by lia. reflexivity. }
+      intros [k s]. rewrite <- (aget_in keyeqb keyeqb_eq k s _ (proj1 (compact_ev_ok W))),
+                     <- (aget_in keyeqb keyeqb_eq k s _ (proj1 Hok1)), Hlk. tauto. }
+    eexists. exists (compact_ev W). split; [|split; [exact (proj1 (compact_ev_ok W))|split; [exact Hsame|]]].
+    + unfold next_of. cbn [y_next aget]. rewrite Hnn, Nat2N.id, Nat.max_0_l. cbn [aset]. reflexivity.
+    + apply pinv_recv_bulk. unfold bulk_cps. rewrite Hfb, Hw, compact_reqs.
+      apply (pinv_bulk_updates g0 fl Hfd Hfrl (compact_ev W) [] _ (compact_ev_ok W)); [|apply pinv_fresh, Hfresh].
+      simpl. apply (uniq_same g0 (live_run evs1) (compact_ev W) (proj1 Hok1) (proj1 (compact_ev_ok W)));
+        [intros x; symmetry; apply Hsame|exact Huniq].
+  - (* snapshot *)
+    rewrite Nat.mul_0_r. cbn [iter_n y_sender y_recv y_sent y_next y_live y_panics y1].
+    eexists. exists (live_run evs1). split; [|split; [exact (proj1 Hok1)|split; [intros x; tauto|]]].
+    + unfold next_of. cbn [y_next aget]. fold n1. rewrite Nat2N.id, Nat.max_0_l. cbn [aset]. reflexivity.
+    + apply pinv_recv_snapshot.
+      replace (if f_lagdel fl then mkrecv [] [] g0 else purge fl (mkrecv [] [] g0) g) with (mkrecv [] [] g0)
+        by (destruct (f_lagdel fl); reflexivity).
+      unfold snapshot_cps. cbn [y_live]. rewrite (filter_id _ (live_run evs1)).
+      * apply (pinv_bulk_updates g0 fl Hfd Hfrl (live_run evs1) [] _ Hok1 Huniq). apply pinv_fresh, Hfresh.
+      * intros [k' s'] Hin. cbn [snd]. apply N.eqb_eq.
+        apply (live_srg g evs1 [] (fun _ _ F => match F with end) Hall k' s' Hin).
+Qed.
+
+Lemma stream_after_bulk_state fl g0 cap g evs1 evs2 rcb :
+  g <> 0%N -> (forall e, In e (evs1 ++ evs2) -> s_srg (fst e) = g) ->
+  (Z.of_nat (length (evs1 ++ evs2)) < two63 - 1)%Z ->
+  sys_step fl (mksys [(g, (N.of_nat (length evs1), fold_left push (reqs_from g 0 evs1) (new_ring cap)))] (mkrecv [] [] g0)
+                     (reqs_from g 0 evs1) [] (live_run evs1) O) (OBulk g) =
+    mksys [(g, (N.of_nat (length evs1), fold_left push (reqs_from g 0 evs1) (new_ring cap)))] rcb (reqs_from g 0 evs1)
+          [(g, length evs1)] (live_run evs1) O ->
+  exists sn,
+    sys_run fl (sys_init cap [g] g0)
+      (ev_ops evs1 ++ [OBulk g] ++ ev_ops evs2 ++ repeat (ODeliver g) (length evs2)) =
+    mksys sn (recv_run fl rcb (reqs_from g (N.of_nat (length evs1)) evs2))
+          (reqs_from g 0 evs1 ++ reqs_from g (N.of_nat (length evs1)) evs2)
+          [(g, (length evs1 + length evs2)%nat)] (live_fold (live_run evs1) evs2) O.
+Proof.
+  intros Hg Hall Hn Hb.
+  assert (Hall1 : forall e, In e evs1 -> s_srg (fst e) = g) by (intros e He; apply Hall, in_or_app; auto).
+  assert (Hall2 : forall e, In e evs2 -> s_srg (fst e) = g) by (intros e He; apply Hall, in_or_app; auto).
+  rewrite app_length in Hn. unfold two63 in Hn.
+  assert (Hn64 : (N.of_nat (length evs1) + N.of_nat (length evs2) < n64)%N) by (unfold n64; lia).
+  eexists.
+  rewrite !sys_run_app. unfold sys_init. cbn [map].
+  match goal with |- context [sys_run fl ?Y (ev_ops evs1)] =>
+    rewrite (sys_events fl g evs1 Y 0%N (new_ring cap) Hg eq_refl Hall1 ltac:(lia)) end.
+  cbn [y_recv y_sent y_next y_live y_panics]. rewrite N.add_0_l, app_nil_l.
+  change (live_fold [] evs1) with (live_run evs1).
+  change (sys_run fl ?Y [OBulk g]) with (sys_step fl Y (OBulk g)). rewrite Hb.
+  match goal with |- context [sys_run fl ?Y (ev_ops evs2)] =>
+    rewrite (sys_events fl g evs2 Y (N.of_nat (length evs1)) _ Hg eq_refl Hall2 Hn64) end.
+  cbn [y_recv y_sent y_next y_live y_panics].
+  match goal with |- context [sys_run fl ?Y (repeat _ _)] =>
+    rewrite (sys_delivers fl g (length evs2) Y (length evs1) eq_refl) end.
+  - cbn [y_live y_panics y_recv y_sent y_next y_sender].
+    rewrite skipn_app, reqs_from_length, Nat.sub_diag, skipn_all2 by (rewrite reqs_from_length; lia).
+    cbn [skipn app]. rewrite firstn_all2 by (rewrite reqs_from_length; lia).
+    reflexivity.
+  - cbn [y_sent]. intros q Hq. apply in_app_or in Hq. destruct Hq as [Hq|Hq];
+      apply in_nth_error in Hq; destruct Hq as (j & _ & Hj); destruct (reqs_from_nth _ _ _ _ _ Hj) as (A & _); exact A.
+  - cbn [y_sent]. rewrite app_length, !reqs_from_length. lia.
+Qed.
+
+Lemma live_run_app a b : live_run (a ++ b) = live_fold (live_run a) b.
+Proof.
+  unfold live_run. change (fold_left _ (a ++ b) []) with (live_fold [] (a ++ b)).
+  change (fold_left _ a []) with (live_fold [] a). apply live_fold_app.
+Qed.
+
+Lemma bulk_then_stream_pools fl g0 cap g evs1 evs2 :
+  f_range fl = false -> f_stale fl = true -> f_bulk fl = false -> f_drop fl = false -> f_relall fl = false ->
+  g <> 0%N -> (forall e, In e (evs1 ++ evs2) -> s_srg (fst e) = g) ->
+  (0 < cap <= max_make)%Z -> (Z.of_nat (length (evs1 ++ evs2)) < two63 - 1)%Z -> evs1 <> [] ->
+  (f_window fl = true -> window_covers cap evs1 g) ->
+  fresh g0 ->
+  (forall i, (i <= length (evs1 ++ evs2))%nat -> uniq g0 (live_run (firstn i (evs1 ++ evs2)))) ->
+  let y := sys_run fl (sys_init cap [g] g0)
+             (ev_ops evs1 ++ [OBulk g] ++ ev_ops evs2 ++ repeat (ODeliver g) (length evs2)) in
+  forall x sid, lease_at (rc_reg (y_recv y)) x = Some sid <-> In (x, sid) (expected_leases g0 (y_live y)).
+Proof.
+  intros Hfr Hfs Hfb Hfd Hfrl Hg Hall Hcap Hn Hne Hcov Hfresh Hu y x sid. subst y.
+  assert (Hall1 : forall e, In e evs1 -> s_srg (fst e) = g) by (intros e He; apply Hall, in_or_app; auto).
+  assert (Hlen : (Z.of_nat (length evs1) < two63 - 1)%Z) by (rewrite app_length in Hn; lia).
+  assert (Hu1 : uniq g0 (live_run evs1)).
+  { specialize (Hu (length evs1) ltac:(rewrite app_length; lia)). rewrite firstn_app, Nat.sub_diag, firstn_all in Hu.
+    cbn [firstn] in Hu. rewrite app_nil_r in Hu. exact Hu. }
+  destruct (bulk_fresh_pinv fl g0 cap g evs1 Hfr Hfs Hfb Hg Hall1 Hcap Hlen Hne Hcov Hfd Hfrl Hfresh Hu1)
+    as (rcb & L & Hb & HL & Hsame & Hp).
+  cbn zeta in Hb. cbn [y_sender] in Hb.
+  destruct (stream_after_bulk_state fl g0 cap g evs1 evs2 rcb Hg Hall Hn Hb) as (sn & ->).
+  cbn [y_recv y_live].
+  assert (Hok1 : live_ok (live_run evs1)) by (apply (live_ok_fold evs1 []); split; [constructor|intros ? ? []]).
+  assert (Hu2 : forall i, (i <= length evs2)%nat -> uniq g0 (live_fold (live_run evs1) (firstn i evs2))).
+  { intros i Hi. specialize (Hu (length evs1 + i)%nat ltac:(rewrite app_length; lia)).
+    rewrite firstn_app, firstn_all2 in Hu by lia. replace (length evs1 + i - length evs1)%nat with i in Hu by lia.
+    rewrite live_run_app in Hu. exact Hu. }
+  pose proof (pinv_stream_perm g0 g fl evs2 Hfs Hfd Hfrl (N.of_nat (length evs1)) rcb L (live_run evs1) HL (proj1 Hok1)
+                Hsame Hp Hu2) as (_ & _ & _ & Hl).
+  rewrite Hl, <- owner_expected.
+  apply pinv_owner_same. apply (same_elems_fold evs2 L (live_run evs1) HL (proj1 Hok1) Hsame).
+Qed.
